@@ -237,4 +237,75 @@ Proof.
     specialize (IH o1 HI1 Hok). destruct (Ooo.orun J St init units step L o1 t) as [o2 rs]. exact IH.
 Qed.
 
+(* ---------- progress: flushing drains the manager ---------- *)
+(* This is the contract the in-order ring (Mgr/Ring.v, op_ok) assumes of complete_job(): a job
+   parked in a manager is handed back after finitely many flushes of that manager — at most as
+   many as there are busy lanes — so the `while (job->status < COMPLETED)` loop terminates. *)
+
+Lemma flush_frame o :
+  Inv1 o ->
+  match flush o with
+  | (o', None) => (forall l, (l < L)%nat -> job o l = None) /\ o' = o
+  | (o', Some (j', s')) =>
+      Inv1 o' /\ s' = step (init j') (units j') /\
+      exists idx, (idx < L)%nat /\ job o idx = Some j' /\ job o' idx = None /\
+                  (forall l, l <> idx -> job o' l = job o l) /\ unused o' = idx :: unused o
+  end.
+Proof.
+  intros ((Hnd & Hun & Hocc) & Hne). unfold flush.
+  destruct (donor J (job o) L) as [d|] eqn:Ed.
+  - destruct (donor_some _ _ _ Ed) as (Hd & Hjd).
+    assert (HR : Ready (pad J St o d)).
+    { unfold Ready, pad. cbn [unused lens job ls]. split; [exact Hnd|]. split; [exact Hun|]. split; [|split].
+      - intros l j Hl Hj. rewrite Hj. apply Hocc; assumption.
+      - intros l Hl Hn. rewrite Hn. reflexivity.
+      - exists d. split; assumption. }
+    pose proof (run_min_spec _ HR) as H.
+    destruct (run_min (pad J St o d)) as [o' r].
+    destruct H as (idx & j' & Hidx & Hj' & -> & HI' & Hu' & Hnone & Hfr).
+    cbn [pad job unused] in *.
+    split; [split; [exact HI'|rewrite Hu'; discriminate]|]. split; [reflexivity|].
+    exists idx. repeat split; assumption.
+  - split; [apply donor_none; exact Ed|reflexivity].
+Qed.
+
+Fixpoint flush_n (n : nat) (o : ooo) : ooo :=
+  match n with O => o | S k => flush_n k (fst (flush o)) end.
+
+Lemma unused_length_le o : Inv1 o -> (length (unused o) <= L)%nat.
+Proof.
+  intros ((Hnd & Hun & _) & _).
+  rewrite <- (seq_length L 0). apply NoDup_incl_length; [exact Hnd|].
+  intros l Hl. apply Hun in Hl. apply in_seq. lia.
+Qed.
+
+(* the number of flushes needed is bounded by the number of busy lanes *)
+Theorem flush_drains_lane : forall n o l,
+  Inv1 o -> (l < L)%nat -> job o l <> None -> (L - length (unused o) <= n)%nat ->
+  exists k, (k <= n)%nat /\ job (flush_n k o) l = None /\ Inv1 (flush_n k o).
+Proof.
+  induction n as [|n IH]; intros o l HI Hl Hj Hb.
+  - (* no busy lane: contradiction with job o l <> None *)
+    exfalso. pose proof (unused_length_le o HI) as Hle.
+    assert (Hlen : length (unused o) = L) by lia.
+    destruct HI as ((Hnd & Hun & _) & _).
+    assert (Hin : In l (unused o)).
+    { (* unused has L distinct elements below L: it contains every lane *)
+      assert (Hincl : incl (seq 0 L) (unused o)).
+      { apply NoDup_length_incl; [exact Hnd|rewrite seq_length; lia|].
+        intros x Hx. apply Hun in Hx. apply in_seq. lia. }
+      apply Hincl. apply in_seq. lia. }
+    apply Hun in Hin. destruct Hin as (_ & Hn). contradiction.
+  - pose proof (flush_frame o HI) as H.
+    destruct (flush o) as [o' r] eqn:Ef. destruct r as [[j' s']|].
+    + destruct H as (HI' & _ & idx & Hidx & Hji & Hnone & Hfr & Hu).
+      destruct (Nat.eq_dec l idx) as [->|Hne].
+      * exists 1%nat. cbn [flush_n]. rewrite Ef. cbn [fst]. split; [lia|]. split; [exact Hnone|exact HI'].
+      * destruct (IH o' l HI' Hl) as (k & Hk & Hkn & HIk).
+        { rewrite Hfr by exact Hne. exact Hj. }
+        { rewrite Hu. cbn [length]. lia. }
+        exists (S k). cbn [flush_n]. rewrite Ef. cbn [fst]. split; [lia|]. split; assumption.
+    + destruct H as (Hall & _). exfalso. apply Hj. apply Hall. exact Hl.
+Qed.
+
 End OooProofs.
